@@ -110,6 +110,8 @@ def _mk_setattr(cfg, key):
     def setup(ctx):
         st = St()
         st.selfv = _obj(st, *cfg)
+        st.selfv.set("_computed", True)                  # a table was materialised earlier (tolist / iteration / concatenate)
+        st.selfv.set("_data", _Val("materialised table"))
         st.v = _Val("assigned:" + key)
         st.args = [key, st.v]
         return st
@@ -120,10 +122,12 @@ def _mk_setattr(cfg, key):
         expc = {k: v for k, v in st.comp0.items() if k != key}
         return [("overlay.gets.the.value", _same_store(st.selfv.get("_set_values"), exp)),
                 ("stale.cache.entry.dropped, other cache entries kept", _same_store(st.selfv.get("_computed_values"), expc)),
-                ("buffer.untouched", st.selfv.get("_itemgetter") is st.getter)]
+                ("buffer.untouched", st.selfv.get("_itemgetter") is st.getter),
+                ("the.table.materialised.earlier.is.invalidated", st.selfv.get("_computed") is False)]
     return Contract("C05.lazy.__setattr__[set=%s,cached=%s,assign=%s]" % (",".join(cfg[0]) or "-", ",".join(cfg[1]) or "-", key),
                     target=lambda: _lazy_cls().__setattr__, setup=setup, ensures=ens,
-                    canaries=[("stale cache kept", "                del self._computed_values[key]", "                pass")] if key in cfg[1] else [])
+                    canaries=([("stale cache kept", "                del self._computed_values[key]", "                pass")] if key in cfg[1] else []) +
+                             [("materialised table kept after an assignment", "self._computed = False  # a table", "pass  # a table")])
 
 
 # ---- __getitem__ ------------------------------------------------------------------------------------------------------------------------
